@@ -96,7 +96,9 @@ func (i *ReceiverInterceptor) BindRemoteStream(
 			}
 			nlen, err := newPkt.MarshalTo(b)
 
-			return nlen, attr, err
+			// the attributes collected so far (a cached RTP header among them) describe the packet
+			// that was just read, not the older one handed out now
+			return nlen, make(interceptor.Attributes), err
 		}
 
 		return n, attr, ErrPopWhileBuffering
